@@ -12,7 +12,7 @@ VERIF = os.path.dirname(os.path.dirname(os.path.abspath(__file__)))
 REPO = os.environ.get('VERIF_REPO', '/repo')
 KNOWN_FILE = os.path.join(VERIF, 'known_findings.json')
 
-MAX_VIOL_KEPT = 40          # unexplained violations kept per shard (all are counted)
+MAX_VIOL_KEPT = int(os.environ.get('VERIF_MAX_VIOL', '40'))          # unexplained violations kept per shard (all are counted)
 MAX_STATES = 20000          # cap per monitor of distinct abstract states kept
 
 
